@@ -247,9 +247,25 @@ const BIT_REVERSE_6BIT: &[u8] = &[
     0o07, 0o47, 0o27, 0o67, 0o17, 0o57, 0o37, 0o77,
 ];
 
+/// Verification hooks (cargo feature `verif_hooks`, off by default): counters read by external
+/// runtime monitors. `BRANCH_HINTS` counts executions of the rare branches marked with
+/// `branch_hint()`; `FALSE_ASSUMES` counts `assume(false)` calls, which with the feature on are
+/// trapped (panic) instead of reaching `unreachable_unchecked`.
+#[cfg(feature = "verif_hooks")]
+pub mod verif_hooks {
+    use core::sync::atomic::AtomicU64;
+    pub static BRANCH_HINTS: AtomicU64 = AtomicU64::new(0);
+    pub static FALSE_ASSUMES: AtomicU64 = AtomicU64::new(0);
+}
+
 #[inline(always)]
 pub fn assume(p: bool) {
     debug_assert!(p);
+    #[cfg(feature = "verif_hooks")]
+    if !p {
+        verif_hooks::FALSE_ASSUMES.fetch_add(1, core::sync::atomic::Ordering::Relaxed);
+        panic!("verif_hooks: violated assume()");
+    }
     if !p {
         unsafe {
             unreachable_unchecked();
@@ -267,6 +283,8 @@ pub fn assume(p: bool) {
 /// This function has no semantics. It is a hint only.
 #[inline(always)]
 pub fn branch_hint() {
+    #[cfg(feature = "verif_hooks")]
+    verif_hooks::BRANCH_HINTS.fetch_add(1, core::sync::atomic::Ordering::Relaxed);
     // NOTE: These are the currently supported assembly architectures. See the
     // [nightly reference](https://doc.rust-lang.org/nightly/reference/inline-assembly.html) for
     // the most up-to-date list.
